@@ -35,15 +35,19 @@ Per event one verdict line
 * `ok <id> <op> <branch> <J|->`    the model (rounding of `T`) computes exactly `after` (same `E` / throws)
 * `okle <id> <op> <branch> <J|->`  mode `dbl`: the model with exact arithmetic is entrywise `≤` the real matrix
 * `MISMATCH <id> model <op> <branch> got=… want=…`
-* `NAN <id> <op> <branch> <entry|threw> [coeff]`  the real matrix holds `nan` / `-inf`, or the call threw an
+* `NAN <id> <op> <branch> <entry|threw> [coeff] maxb=<k>`  (`k` = largest finite magnitude in the closed matrix) the real matrix holds `nan` / `-inf`, or the call threw an
                                    `int` (`sgn()` of a Not-a-Number does `throw(0)`): not compared, not judged
-* `skip <id> coeff <op>`           a coefficient / the denominator is not representable in `T`
+* `skip <id> coeff <op> <J|F|->`   a coefficient of the expression is not representable in `T` (bounded integers:
+                                   beyond `±hi`): outside the model, the real output is still judged.  A case where only
+                                   the denominator is not representable is replayed (`Rnd.dn` / `Rnd.up` model
+                                   `div_round_up_by_positive`); its branch tag ends in `/bigden`
 * `CRASH <id> <op> <signal>`
 
 and, when the real output is not sound, a second line `JUDGE-FAIL <id> <op> …`: `before` is read as a
 constraint system (`m[i][j] = p/q` finite, `i ≠ j` ⇒ `x_j − x_i ≤ p/q`, `x_0 = 0`), the exact result is
 computed with the `RefPoly` operators of K1 (`addCons`, `affineImage`, `genAffineImage`,
-`boundedAffineImage`, `unconstrain`), `after` is read the same way and `subsetB n exact after` is
+`boundedAffineImage`, `unconstrain`, `affinePreimage`, `genAffinePreimage`), `after` is read the same way
+(octagons: cell `(i, j)` bounds `V_j − V_i` with `V_{2k} = x_k`, `V_{2k+1} = −x_k`) and `subsetB n exact after` is
 demanded (`E` ⇒ the exact result is infeasible).  `J` = judged and sound.
 
 Arguments: `nojudge` (model comparison only), `print` (print the model's answer instead of comparing).
@@ -327,6 +331,23 @@ def judge (n : Nat) (oct : Bool) (before : List (List ExtRat)) (op : Op) (after 
     if bad.isEmpty then none
     else some s!"the result cuts away points of the exact result: {bad.length} row(s) not implied, first {repr (bad.headD default).coeffs} k={(bad.headD default).k}"
 
+/-- the largest magnitude among the finite entries of the matrix the transformer works on (after the
+closure at its head): the structural class of a Not-a-Number case is `|coefficient| * |bound|` beyond `T` -/
+def maxBound (R : Rnd) (n : Nat) (closed oct : Bool) (before : List (List ExtRat)) : Int :=
+  let rows : List (List ExtRat) :=
+    if oct then
+      match octCloseFirst R.up closed (OctM.ofLists n before) with
+      | some m => octOut n m
+      | none => before
+    else
+      match closeFirst R.up closed (DBM.ofLists n before) with
+      | some m => bdsOut n m
+      | none => before
+  (rows ++ before).foldl (fun acc r => r.foldl (fun acc x =>
+    match x with
+    | fin q => max acc (if q < 0 then (-q).ceil else q.ceil)
+    | pinf => acc) acc) 0
+
 def leMat (a b : List (List ExtRat)) : Bool :=
   a.length == b.length && (a.zip b).all fun (r, s) => r.length == s.length && (r.zip s).all fun (x, y) => decide (x ≤ y)
 
@@ -364,7 +385,7 @@ def processLine (printOnly noJudge : Bool) (line : String) : List String :=
             | some h => o.convInts.any fun c => decide (c > h ∨ c < -h)
             | none => false
           if hasNaN after || after == "X:int" then
-            some [s!"NAN {id} {op} {tag} {if after == "X:int" then "threw" else "entry"}{if outside then " coeff" else ""}"] else
+            some [s!"NAN {id} {op} {tag} {if after == "X:int" then "threw" else "entry"}{if outside then " coeff" else ""} maxb={maxBound R n closed oct b}"] else
           let wantM ← if after == "E" || after.startsWith "X:" then some none else (parseMat after).map some
           let jres : Option String :=
             if noJudge || after.startsWith "X:" then none else judge n oct b o wantM
